@@ -283,6 +283,34 @@ func isTrackedType(ty types.Type) bool {
 	return false
 }
 
+// holdsTracked: a go-nfsd struct type with a field of a tracked type (directly
+// or in a nested struct).
+func holdsTracked(ty types.Type, d int) bool {
+	if d > 2 {
+		return false
+	}
+	n, ok := types.Unalias(ty).(*types.Named)
+	if !ok || n.Obj().Pkg() == nil || !strings.HasPrefix(n.Obj().Pkg().Path(), modPath) {
+		return false
+	}
+	st, ok := n.Underlying().(*types.Struct)
+	if !ok {
+		return false
+	}
+	// the file system's own shared objects are not contexts
+	switch n.Obj().Name() {
+	case "Inode", "FsTxn", "AllocTxn", "FsState", "Nfs", "Cache", "Dcache":
+		return false
+	}
+	for i := 0; i < st.NumFields(); i++ {
+		ft := st.Field(i).Type()
+		if isTrackedType(ft) || holdsTracked(ft, d+1) {
+			return true
+		}
+	}
+	return false
+}
+
 func isNamedStatus(ty types.Type) bool {
 	n, ok := types.Unalias(ty).(*types.Named)
 	if !ok {
@@ -333,7 +361,9 @@ func (t *TS) eval(s *State, v ssa.Value) AV {
 	switch v.(type) {
 	case *ssa.FieldAddr, *ssa.Alloc:
 		if _, isPtr := v.Type().Underlying().(*types.Pointer); isPtr {
-			if c, elem, ok := cellOf(v); ok && isTrackedType(elem) {
+			if c, elem, ok := cellOf(v); ok && (isTrackedType(elem) || holdsTracked(elem, 0)) {
+				// (a local struct that carries a transaction, an inode or a status - the context object of a
+				// function split into phases - is a bundle of cells)
 				return AV{K: KPtr, Cell: c}
 			}
 		}
@@ -1111,6 +1141,13 @@ func (t *TS) call(s *State, call *ssa.Call) []*State {
 					t.event("foreign", call, "a new transaction is begun while transaction "+oid+" holds inode locks", oid, o, true, nil)
 				}
 			}
+			// one request, one committed transaction: what was committed earlier in this request (same or other site)
+			for oid, o := range s.G.Txns {
+				if o.St == "committed" {
+					t.event("rebegin", call, "a transaction is begun after transaction "+oid+" of the same request was committed", oid, o, true, nil)
+				}
+			}
+			t.event("rebegin", call, "begin", id, TxnSt{}, false, nil)
 			var no []string
 			for _, o := range s.G.Order {
 				if o != id {
